@@ -1,3 +1,4 @@
+use crate::common::position::Position;
 use crate::parse::lex::pass::Pass;
 use crate::parse::lex::token::{Lex, Token};
 
@@ -37,7 +38,11 @@ impl DocString {
                     self.front = None;
                     self.middle = None;
                     self.back = None;
-                    return vec![Lex::new(front.pos.start, Token::DocStr(doc_str))];
+                    let pos = Position::new(front.pos.start, back.pos.end);
+                    return vec![Lex {
+                        pos,
+                        token: Token::DocStr(doc_str),
+                    }];
                 }
             }
         }
